@@ -15,7 +15,8 @@
    Pow (exponent value = float(exponent) tracked for sums and products of numbers and quantities; the model
    declines other closed exponents and zero exponents -- then there is no UOk to speak about), Abs, functions
    with dimensionless arguments, Max/Min/Mod, relations, And/Or/Not/Xor, Piecewise with its conditions.
-   Not proved (tested by the oracle only): strict inference accepts the result (C05_result_infers). *)
+   Not proved (tested by the oracle only): strict inference accepts the result (C05_result_infers).
+   Since the mul-rebuild repair a product is rebuilt only when an operand was converted (model: EMul case). *)
 From Coq Require Import List ZArith QArith Reals Qreals.
 From Verif Require Import UnitAlg UnitAlgP Expr Eval UnitCalc UnitCalcP C04P C05P.
 Import ListNotations.
